@@ -118,7 +118,6 @@ pub struct Violation {
     pub actual: String,
 }
 
-const VIOL_CAP: usize = 200;
 const SAMPLE_CAP: usize = 12;
 
 #[derive(Default, Clone, Debug)]
@@ -147,8 +146,11 @@ impl Stats {
             *self.counters.entry(k).or_insert(0) += v;
         }
         self.violation_count += o.violation_count;
+        // keep examples per kind, so that a frequent (possibly known) kind can never crowd out
+        // the examples of a rare one
         for v in o.violations {
-            if self.violations.len() < VIOL_CAP * 4 {
+            let same_kind = self.violations.iter().filter(|w| w.kind == v.kind).count();
+            if same_kind < 40 {
                 self.violations.push(v);
             }
         }
@@ -185,7 +187,7 @@ impl Stats {
         self.count(&format!("viol:{}", kind));
         // keep the first few of each kind per shard; everything is counted
         let same_kind = self.violations.iter().filter(|v| v.kind == kind).count();
-        if same_kind < 8 && self.violations.len() < VIOL_CAP {
+        if same_kind < 8 {
             self.violations.push(Violation {
                 kind: kind.to_string(),
                 case: case(),
@@ -854,6 +856,14 @@ where
                 v.actual
             );
             println!("VIOLATION property={} replay={}", run.prop, p);
+        }
+        if confirmed.is_empty() {
+            // counted but no example kept (should not happen): still honour the interface
+            let p = out_dir().join("replays").join(&run.prop);
+            let _ = fs::create_dir_all(&p);
+            let f = p.join("unlisted.txt");
+            let _ = fs::write(&f, format!("{} violation(s) counted, kinds: {:?}", real_count, st.counters.iter().filter(|(k, _)| k.starts_with("viol:")).collect::<Vec<_>>()));
+            println!("VIOLATION property={} replay={}", run.prop, f.display());
         }
         println!("{}: {} violation(s) in total", run.prop, real_count);
         return 1;
